@@ -28,5 +28,7 @@ def check(run):
     run.gen("Gen_Build", consts={"Fam": "ident"}, tag="Gen_Build_ident")
     # the signing constructors handed caller-assembled identities that declare another signing type, with and without an offline block
     run.gen("Gen_C06", consts={"Part": "decl"}, tag="Gen_C06_decl")
+    # histories on the library's mutable objects: what a builder / a RouterInfo handed out earlier stays what it was
+    run.gen("Gen_Objects")
     run.replay_and_judge()
     return vlib.finish(run, "model_checking", RULE, ASSUME)
